@@ -16,15 +16,18 @@ R4 ownership (whole program, P8): `token_list` / `queues` are mutated only by
    `Port.put/_init_consumer/get` (a foreign `get` would steal a token, a foreign `put` duplicate one).
 R5 `FilterTokenPort.put` forwards through `super().put(token)` exactly once iff
    `isinstance(token, TerminationToken) or self.filter_function(token)` (P10 over the CFG paths); the default
-   filter admits every token.  The class test that exempts tokens from the filter names TerminationToken (or a
-   subclass) only: `isinstance(token, (IterationTerminationToken, TerminationToken))` still "contains" the
+   filter admits every token (a lambda, or a named nested / module-level function, whose every path returns True;
+   locals and a rebound parameter are followed through their assignments).  The class test that exempts tokens
+   from the filter names TerminationToken (or a subclass) only: `isinstance(token, (IterationTerminationToken, TerminationToken))` still "contains" the
    termination test but lets a further token kind bypass filter_function.
 R6 `InterWorkflowPort`: `put` sends a termination token straight to `super().put`; any other token
    visits *every* boundary: `remove_tag(token.tag)`, then the boundary action iff `is_satisfied()`;
    local delivery happens iff no satisfied boundary targets `self` (path enumeration with the loop
    unrolled twice).  `_execute_boundary_action` propagates before it terminates and never calls
-   `self.put` for a boundary on itself; `add_inter_port` copies the tag list, registers the
-   boundary and replays the already present non-termination tokens in order through the same
+   `self.put` for a boundary on itself (the receiver is `super()` exactly where the branch fact `boundary.port is self`
+   holds and `boundary.port` where it does not -- sfverif.facts, so any spelling of the test, a conditional
+   expression or an if statement around the temporary is read alike); `add_inter_port` copies the tag list,
+   registers the boundary and replays the already present non-termination tokens in order through the same
    sequence; `BoundaryRule.is_satisfied` <=> no tag left; `remove_tag` removes the given tag.  As in R5, the
    termination tests of `put` / `add_inter_port` may not be widened to further token classes.
 
@@ -1084,6 +1087,7 @@ _FPUT = f"{FILTER}.put"
 _IPUT = f"{INTER}.put"
 _EXE = f"{INTER}._execute_boundary_action"
 _ADD = f"{INTER}.add_inter_port"
+_FINIT = f"{FILTER}.__init__"
 SFILE = "streamflow/workflow/step.py"
 _IMPORT_ITT = "from streamflow.workflow.token import IterationTerminationToken\n"
 
@@ -1201,6 +1205,38 @@ VARIANTS = [
     V("benign: is_satisfied as emptiness", PFILE, f"{RULE}.is_satisfied", "len(self.tags) == 0", "not self.tags", None),
     V("benign: register after the replay", PFILE, _ADD, "self.boundaries.append(boundary)\n    for token in [t for t in self.token_list if not isinstance(t, TerminationToken)]:\n        boundary.remove_tag(token.tag)\n        if boundary.is_satisfied():\n            self._execute_boundary_action(boundary, token)",
       "for token in [t for t in self.token_list if not isinstance(t, TerminationToken)]:\n        boundary.remove_tag(token.tag)\n        if boundary.is_satisfied():\n            self._execute_boundary_action(boundary, token)\n    self.boundaries.append(boundary)", None),
+    # ---- spelling-independent recognisers (facts.py): receiver of the boundary action, default filter as a named function
+    V("benign: receiver test spelled `not ... is`", PFILE, _EXE, "boundary.port if boundary.port is not self else super()",
+      "boundary.port if not boundary.port is self else super()", None),
+    V("benign: receiver test with swapped operands and arms", PFILE, _EXE, "boundary.port if boundary.port is not self else super()",
+      "super() if not self is not boundary.port else boundary.port", None),
+    V("benign: receiver chosen by an if statement", PFILE, _EXE, "target = boundary.port if boundary.port is not self else super()",
+      "if not boundary.port is self:\n        target = boundary.port\n    else:\n        target = super()", None),
+    V("benign: receiver chosen by a guard clause around direct puts", PFILE, _EXE,
+      "target = boundary.port if boundary.port is not self else super()\n    if BoundaryAction.PROPAGATE in boundary.action:\n        target.put(token)",
+      "target = boundary.port if boundary.port is not self else super()\n    if BoundaryAction.PROPAGATE in boundary.action:\n        if boundary.port is self:\n            super().put(token)\n        else:\n            boundary.port.put(token)", None),
+    V("receiver test `not ... is not`: self boundary re-enters put", PFILE, _EXE, "boundary.port if boundary.port is not self else super()",
+      "boundary.port if not boundary.port is not self else super()", "R6"),
+    V("receiver chosen by an if statement with the arms swapped", PFILE, _EXE, "target = boundary.port if boundary.port is not self else super()",
+      "if boundary.port is self:\n        target = boundary.port\n    else:\n        target = super()", "R6"),
+    V("receiver test weakened by a conjunction", PFILE, _EXE, "boundary.port if boundary.port is not self else super()",
+      "boundary.port if boundary.port is not self and token.tag else super()", "R6"),
+    V("benign: default filter as a module-level function", PFILE, _FINIT, "filter_function or (lambda _: True)",
+      "filter_function or _admit", None, append="def _admit(_):\n    return True\n"),
+    V("default filter as a module-level function rejecting termination-free tokens", PFILE, _FINIT, "filter_function or (lambda _: True)",
+      "filter_function or _admit", "R5", append="def _admit(t):\n    return bool(t.value)\n"),
+    V("benign: default filter as a named function defined before the assignment", PFILE, _FINIT,
+      "self.filter_function: Callable[[Token], bool] = filter_function or (lambda _: True)",
+      "def _admit(_):\n        return True\n    self.filter_function: Callable[[Token], bool] = filter_function or _admit", None),
+    V("benign: default filter bound by rebinding the parameter", PFILE, _FINIT,
+      "self.filter_function: Callable[[Token], bool] = filter_function or (lambda _: True)",
+      "if filter_function is None:\n        filter_function = lambda _: True\n    self.filter_function: Callable[[Token], bool] = filter_function", None),
+    V("default filter as a named function rejecting everything", PFILE, _FINIT,
+      "self.filter_function: Callable[[Token], bool] = filter_function or (lambda _: True)",
+      "def _admit(_):\n        return False\n    self.filter_function: Callable[[Token], bool] = filter_function or _admit", "R5"),
+    V("default filter as a named function that admits only some tokens", PFILE, _FINIT,
+      "self.filter_function: Callable[[Token], bool] = filter_function or (lambda _: True)",
+      "def _admit(t):\n        if t.tag != '0':\n            return True\n    self.filter_function: Callable[[Token], bool] = filter_function or _admit", "R5"),
     V("benign: external read of token_list with logging", SFILE, "streamflow.workflow.step.ScatterStep.restore", "for token in port.token_list:",
       "logger.debug(f'replaying {len(port.token_list)} tokens')\n    for token in port.token_list:", None),
 ]
